@@ -30,14 +30,17 @@ SCRATCH = os.path.join(C.VERIF, ".scratch", "cli")
 
 def gen(ctx):
     rng = ctx.rng
-    n = 400 if ctx.tier == "quick" else 8000
+    n = 1500 if ctx.tier == "quick" else 20000
     eg = G.ExprGen(rng, funcs=True, maxdepth=2)
     cases = []
     for _ in range(n):
         r = rng.random()
-        if r < 0.7:
+        docval = rand_json(rng, 3)
+        if r < 0.35:
             expr = G.spell(rng, eg.expr())
-        elif r < 0.85:
+        elif r < 0.75:
+            expr = G.path_expr(rng, docval)        # data-aware: walks existing keys / indexes, so results are mostly non-null
+        elif r < 0.87:
             expr = G.spell(rng, G.near_miss(rng, eg.expr()))
         else:
             expr = rng.choice(["@", "a", "a.b", "length(@)", "abs(a)", "sort_by(@, &a)", "[::0]", "to_string(@)", "a.", "", "'x'", "keys(@)[0]", "*"])
@@ -48,7 +51,7 @@ def gen(ctx):
         ik = rng.choice(["stdin"] * 5 + ["file"] * 4 + ["file-missing", "file-badutf8", "stdin-badutf8"])
         rj = rng.random()
         if rj < 0.75:
-            doc = json.dumps(rand_json(rng, 3), ensure_ascii=rng.random() < 0.5, indent=rng.choice([None, 1]))
+            doc = json.dumps(docval, ensure_ascii=rng.random() < 0.5, indent=rng.choice([None, 1]))
         elif rj < 0.9:
             doc = rng.choice(["", "{", "[1,]", "{\"a\": }", "nul", "1 2", "{\"a\":1}}"])
         else:
